@@ -1,0 +1,12 @@
+//go:build verif
+
+package qrcode
+
+// Re-export of processStructuredAppend for the verification harness (/verif, property C06, work package
+// detrest).  Compiled only with -tags verif.
+
+import "github.com/makiuchi-d/gozxing"
+
+func VerifProcessStructuredAppend(results []*gozxing.Result) []*gozxing.Result {
+	return processStructuredAppend(results)
+}
